@@ -24,7 +24,12 @@ for d in seeded/*/; do
   git -C /repo checkout -- .
   clause="$(echo "$out" | grep -E "^\s+\[|^violation of|crash confirmed" | head -1 | sed 's/|/\\|/g' | cut -c1-160)"
   evals="$(echo "$out" | grep -oE "evaluations=[0-9]+" | head -1)"
-  if [ $rc -eq 1 ]; then res="caught"; else res="**MISSED (exit $rc)**"; missed=$((missed+1)); fi
+  if [ $rc -eq 1 ]; then
+    res="caught"
+    # keep the (shrunk) failing input as a regression input of that property: replayed first by every run
+    f="$(ls replays/${prop}-*.case 2>/dev/null | head -1)"
+    if [ -n "$f" ] && ! grep -q "^sig=crash" "$f"; then mkdir -p "regress/$prop"; cp "$f" "regress/$prop/seed-$id.case"; fi
+  else res="**MISSED (exit $rc)**"; missed=$((missed+1)); fi
   echo "| $id | $prop | $res | $clause | $evals |" >> "$OUT"
   echo "$id $prop rc=$rc $evals"
 done
